@@ -27,6 +27,11 @@ SETS2 = {
     "wedge": [{"t": "half", "a": [1.0, 1.0], "b": 0.0}, {"t": "half", "a": [1.0, -1.0], "b": 0.0}],
     "thinbox": [{"t": "box", "l": [-1e-3, -5.0], "u": [1e-3, 5.0]}],
     "ballhalf": [{"t": "ball", "c": [0.0, 0.5], "r": 1.0}, {"t": "half", "a": [0.0, -1.0], "b": 0.0}],
+    # geometries defined relative to Delta ("rel": lengths are multiplied by Delta): constraints that cross the
+    # trust-region boundary at a shallow angle, where Dykstra converges slowly and the order of projections matters
+    "tangent": [{"t": "half", "a": [1.0, 0.1], "b": 0.995, "rel": True}],
+    "tangent2": [{"t": "half", "a": [1.0, 0.02], "b": 0.9995, "rel": True}, {"t": "half", "a": [1.0, -0.02], "b": 0.9995, "rel": True}],
+    "lens": [{"t": "ball", "c": [0.05, 0.0], "r": 1.0, "rel": True}, {"t": "half", "a": [0.0, 1.0], "b": 0.3, "rel": True}],
 }
 HF2 = ["zero", "eye", "rank1", "dense"]
 
@@ -52,8 +57,6 @@ def cases(tier, salts):
                     for dl in [1e-3, 0.1, 1.0, 10.0]:
                         out.append({"k": "cgeom", "set": sname, "g": list(g), "sc": sc, "delta": dl, "c": 1.0, "salt": salt})
                         for hf in (HF2 if tier == "thorough" else ["zero", "rank1"]):
-                            if all(t == 0.0 for t in g):
-                                continue
                             out.append({"k": "pgd", "set": sname, "g": list(g), "sc": sc, "delta": dl, "H": hf, "salt": salt})
                             if salt == 0 and (tier == "thorough" or (sc == 1.0 and dl in (0.1, 10.0))):
                                 for reg in ("l1", "l2"):
@@ -65,9 +68,10 @@ def cases(tier, salts):
                 for lam in (1e-2, 1.0):
                     for bnd in (False, True):
                         for pert in range(6 if tier == "quick" else 12):
-                            for delta in (1e-3, 0.3):
-                                out.append({"k": "regstep", "reg": reg, "lam": lam, "bounds": bnd, "pert": pert, "delta": delta,
-                                            "salt": salt})
+                            for delta in (1e-3, 0.3, 3.0):
+                                for mi in (3, 40):
+                                    out.append({"k": "regstep", "reg": reg, "lam": lam, "bounds": bnd, "pert": pert,
+                                                "delta": delta, "max_iters": mi, "salt": salt})
     return out
 
 
@@ -150,7 +154,14 @@ def _sets(case):
     specs = []
     for sp in SETS2[case["set"]]:
         sp = dict(sp)
-        if sp["t"] == "ball":
+        if sp.pop("rel", False):
+            D = case["delta"]
+            if sp["t"] == "ball":
+                sp["c"] = [t * D for t in sp["c"]]
+                sp["r"] = sp["r"] * D
+            else:
+                sp["b"] = sp["b"] * D
+        elif sp["t"] == "ball":
             sp["r"] = sp["r"] * e
         specs.append(sp)
     return [bank.CSet(sp) for sp in specs]
@@ -223,7 +234,7 @@ def _check_regstep(case):
         m.model_const = m.model_const + (0.3 * k) * rs.normal(size=m.model_const.shape)
     ctl.delta = case["delta"]
     params = P.ParameterList(2, 3, 100)
-    params("func_tol.max_iters", new_value=40)
+    params("func_tol.max_iters", new_value=case["max_iters"])
     crit = ctl.evaluate_criticality_measure(params)
     d, gopt, H, gnew, crvmin = ctl.trust_region_step(params, crit)
     xo = m.xopt(abs_coordinates=True)
